@@ -14,6 +14,8 @@ import Blots.Lemmas.OfRatioScale
   The one thing NOT proved here is that the search finds a candidate within its 18 rounds
   (`ShortestFound`; 17 significant digits always suffice for a double).  That fact is a
   hypothesis of the theorems and is validated on the real code by the harness.
+  (It IS proved in `Blots/Lemmas/Shortest17.lean`: `shortest_always_found`,
+  `parseDec_toDisplay_all`.)
 -/
 namespace Blots.F64
 
